@@ -1059,6 +1059,112 @@ theorem ecma_factor_valid (F : Fns Rat) (hsqrt : ∀ x : Rat, 0 < x → 0 < F.sq
 example : ValidFactor 1 [[1]] := ⟨rfl, by simp, by intro k hk; simp at hk; subst hk; simp [Vec.get]⟩
 example : cholUpdate idFns 1 1 [1] [[1]] = some [[2]] := by decide +kernel
 
+/-! ## configuration axes of the public interface: `ElitistCMA::activeUpdate()`, `CMA::setLowerBound`,
+`CrossEntropyMethod::setNoiseType` — the theorems hold for EVERY setting, not only for the defaults -/
+
+/-- `ElitistCMA::init` establishes the invariant of `ecma_elitist_monotone` when the starting point is feasible -/
+theorem ecmaInit_invariant (sigma pSucc : Rat) (n : Nat) (L : List (Vec Rat)) (x0 : Vec Rat) (f : Rat) :
+    (ecmaInit sigma pSucc n L x0 f f).anc.getLast? = some (ecmaInit sigma pSucc n L x0 f f).bestValue := by
+  simp [ecmaInit, List.replicate]
+
+/-- **ecma_elitist_monotone_run**: for BOTH settings of `activeUpdate()` (`k.active` is universally quantified), every
+number of steps and every sequence of samples and (unpenalized = penalized) fitness values: the value reported after the
+run is not worse than the one reported before, and the parent's accepted fitness is still the reported value. -/
+theorem ecma_elitist_monotone_run (F : Fns Rat) (k : EcmaConsts Rat) (inputs : List (EcmaInput Rat)) (s s' : Ecma Rat)
+    (hfeas : ∀ i ∈ inputs, i.fu = i.fp) (hinv : s.anc.getLast? = some s.bestValue) (h : ecmaRun F k s inputs = some s') :
+    s'.bestValue ≤ s.bestValue ∧ s'.anc.getLast? = some s'.bestValue := by
+  induction inputs generalizing s with
+  | nil =>
+    simp only [ecmaRun, Option.some.injEq] at h
+    subst h; exact ⟨le_refl _, hinv⟩
+  | cons i rest ih =>
+    simp only [ecmaRun, Option.bind_eq_some_iff] at h
+    obtain ⟨u, hu, hrest⟩ := h
+    have hf : i.fu = i.fp := hfeas i (by simp)
+    rw [hf] at hu
+    obtain ⟨h1, h2, _⟩ := ecma_elitist_monotone F k s u i.y i.zz i.fp hinv hu
+    obtain ⟨h3, h4⟩ := ih u (fun j hj => hfeas j (by simp [hj])) h2 hrest
+    exact ⟨le_trans h3 h1, h4⟩
+
+/-- every prefix of a run reports a value at least as good as every shorter prefix (monotone after EVERY step) -/
+theorem ecma_elitist_monotone_prefix (F : Fns Rat) (k : EcmaConsts Rat) (l1 l2 : List (EcmaInput Rat)) (s s1 s2 : Ecma Rat)
+    (hfeas : ∀ i ∈ l1 ++ l2, i.fu = i.fp) (hinv : s.anc.getLast? = some s.bestValue)
+    (h1 : ecmaRun F k s l1 = some s1) (h2 : ecmaRun F k s1 l2 = some s2) : s2.bestValue ≤ s1.bestValue := by
+  have a := ecma_elitist_monotone_run F k l1 s s1 (fun i hi => hfeas i (by simp [hi])) hinv h1
+  exact (ecma_elitist_monotone_run F k l2 s1 s2 (fun i hi => hfeas i (by simp [hi])) a.2 h2).1
+
+/-- **ecma_accepted_monotone**: with penalties (infeasible offspring, `fp ≠ fu`) the REPORTED value is the unpenalized fitness
+and need not be monotone, but the accepted penalized fitness — the newest entry of the history, against which offspring are
+compared — never increases, for both settings of `activeUpdate()`. -/
+theorem ecma_accepted_monotone (F : Fns Rat) (k : EcmaConsts Rat) (s s' : Ecma Rat) (y : Vec Rat) (zz fp fu a : Rat)
+    (ha : s.anc.getLast? = some a) (h : ecmaStep F k s y zz fp fu = some s') :
+    ∃ a', s'.anc.getLast? = some a' ∧ a' ≤ a := by
+  unfold ecmaStep at h
+  simp only at h
+  split at h
+  · next hc =>
+    simp only [Option.map_eq_some_iff] at h
+    obtain ⟨u, hu, rfl⟩ := h
+    refine ⟨fp, by simp, ?_⟩
+    unfold classify at hc
+    rw [ha] at hc
+    simp only at hc
+    by_contra hge
+    have hge' : a ≤ fp := le_of_lt (not_le.mp hge)
+    simp only [hge', if_true] at hc
+    split at hc
+    · split at hc <;> cases hc
+    · cases hc
+  · next succ hne =>
+    simp only [Option.map_eq_some_iff] at h
+    obtain ⟨u, hu, rfl⟩ := h
+    obtain ⟨_, _, hanc, _, _⟩ := updateAsParent_sigma F k s u _ zz y hne hu
+    exact ⟨a, by show u.anc.getLast? = some a; rw [hanc]; exact ha, le_refl _⟩
+
+/-- non-vacuity with the active update switched OFF: a successful step from the initial state -/
+def k0 : EcmaConsts Rat := { pTarget := 2/11, dStep := 3/2, cP := 1/12, cPath := 2/3, cCov := 2/7, cUnlearn := 1/5, threshold := 11/25, active := false }
+example : (ecmaRun idFns k0 (ecmaInit 1 (2/11) 1 [[1]] [2] 4 4) [⟨[-1], 1, 1, 1⟩, ⟨[1], 1, 3, 3⟩]).isSome = true := by decide +kernel
+
+/-- the stability clamp of `CMA::updatePopulation` keeps the step size positive for EVERY bound the user may set with
+`CMA::setLowerBound` (zero and negative bounds included: the clamp then never fires) -/
+theorem clamp_pos_any (F : Fns Rat) (lb sigma ev : Rat) (hs : 0 < sigma)
+    (hr : 0 < F.sqrt (Scalar.abs ev)) : 0 < clampSigma F lb sigma ev := by
+  unfold clampSigma
+  simp only
+  split
+  · next hlt => exact div_pos (lt_trans (mul_pos hs hr) hlt) hr
+  · exact hs
+
+/-- **sigma_pos_any_bound**: `sigma_pos` without the hypothesis `0 < lowerBound` -/
+theorem sigma_pos_any_bound (F : Fns Rat) (W : World Rat) (c : Coeffs Rat) (n mu : Nat) (fit : Vec Rat → Rat)
+    (hexp : ∀ x, 0 < F.exp x) (hr : ∀ C, 0 < F.sqrt (Scalar.abs (W.lastEig C)))
+    (s : State Rat) (hs : 0 < s.dist.sigma) (t : Nat) : 0 < (run F W c n mu fit s t).dist.sigma := by
+  induction t with
+  | zero => exact hs
+  | succ t ih =>
+    have key : ∀ s : State Rat, 0 < s.dist.sigma → 0 < (step F W c n mu fit s).dist.sigma := by
+      intro s hs
+      unfold step finish
+      simp only
+      have hpos : ∀ sel, 0 < clampSigma F W.lowerBound (update F c n s.dist sel (W.eigVec s.dist.C)).sigma
+          (W.lastEig (update F c n s.dist sel (W.eigVec s.dist.C)).C) := by
+        intro sel
+        apply clamp_pos_any F _ _ _ _ (hr _)
+        unfold update
+        exact sigma_update_pos F hexp c n _ _ hs
+      split <;> exact hpos _
+    exact key _ ih
+
+/-- the noise term of the cross-entropy method is non-negative for every noise type and every generation -/
+theorem cemNoise_nonneg (nz : CemNoise Rat) (t : Nat) : 0 ≤ cemNoise nz t := by
+  unfold cemNoise
+  cases nz <;> simp only [smax_rat, szero_rat] <;> exact le_max_right _ _
+
+/-- **cem_variance_nonneg_any_noise**: the variance stays non-negative under every `setNoiseType` configuration -/
+theorem cem_variance_nonneg_any_noise (nz : CemNoise Rat) (t n : Nat) (sel : List (List Rat)) :
+    ∀ v ∈ (cemUpdate (cemNoise nz t) n sel).2, 0 ≤ v :=
+  cem_variance_nonneg _ (cemNoise_nonneg nz t) n sel
+
 /-! ## non-vacuity of the hypotheses used above -/
 /-- libm stand-ins satisfying every hypothesis at once: `log`, `sqrt` the identity, `exp`, `pow` the constant 1 -/
 def unitFns : Fns Rat := { log := id, sqrt := id, exp := fun _ => 1, pow := fun _ _ => 1 }
